@@ -559,7 +559,9 @@ func jobsFor(tier string) []job {
 	all := append(append(append(scen.Pairs(), scen.Triples()...), scen.QueryTriples()...), scen.Bulk()...)
 	for _, sc := range all {
 		if tier == "thorough" {
-			js = append(js, job{sc, 2, 0, 25 * time.Minute})
+			// thorough: bound 2 everywhere, within 8 minutes per scenario (a budget that is hit is
+			// reported as the bound completed, never as a violation)
+			js = append(js, job{sc, 2, 0, 8 * time.Minute})
 		} else {
 			// quick: bound 2 for two threads on one shared object or through the same entry point
 			// (short executions only, see pointLimit); different operations on distinct objects meet
